@@ -7,7 +7,7 @@ Line protocol for C04 (see harness/c04/main.go):
        (conn may be followed by `asserts <scid> <0|1>`: what the transport object asserts; ts may also be `expired <mid>`;
         the line may end in `cfg norouting` or `cfg nodedown`)
        [late <bridge <mid> | route <mid> | remote <mid>>]      (only with ts none: what appears while the request polls)
-  obs: ack <none|ok|fail> acks <n> att <none|src|tgt|fwd> data <0|1> ret <switch|err|pending>
+  obs: ack <none|ok|fail> acks <n> att <none|src|tgt|fwd> on <mapping of the bridge holding the requester|-> … att <none|src|tgt|fwd> data <0|1> ret <switch|err|pending>
 The clock is 1000; exp 1 = expired at 500, exp 2 = expires at 2000.  This node is node-A, the other node-B.
 `ret` is compared between model and implementation but is not part of the property.
   rmw <usage|stats|status>   obs: revoked <0|1> ack <..> att <..> data <0|1>
@@ -112,13 +112,13 @@ def retStr : Ret → String
   | .switch => "switch" | .err => "err" | .pending => "pending"
 
 def parseObs : List String → Option Obs
-  | ["ack", a, "acks", n, "att", t, "data", d, "ret", _] => do
+  | ["ack", a, "acks", n, "att", t, "on", on, "data", d, "ret", _] => do
     let n ← n.toNat?
     let a ← (if a == "none" then some Ack.none else if a == "ok" then some .ok else if a == "fail" then some .fail else none)
     let t ← (if t == "none" then some Attach.none else if t == "src" then some .source else if t == "tgt" then some .target
              else if t == "fwd" then some (.forward "node-B") else none)
     let d ← (if d == "0" then some false else if d == "1" then some true else none)
-    pure ⟨a, t, d, n⟩
+    pure ⟨a, t, d, n, undash on⟩
   | _ => none
 
 /-- `rmw <usage|stats|status>`: the writer's pending whole-record write and a revocation; under the per-mapping
@@ -132,13 +132,13 @@ def rmwWorld (u : Update) : World :=
 def runRmwModel (u : Update) : String :=
   let w := rmwWorld u
   let ts := TunnelState.bridge "M" false
-  let ob := (openTunnel w ⟨true, 22, true, false, 0⟩ ⟨true, "M", "verif-tunnel-01", "s3cretM", ""⟩ ts).obs ts
+  let ob := (openTunnel w ⟨true, 22, true, false, 0⟩ ⟨true, "M", "verif-tunnel-01", "s3cretM", ""⟩ ts).obs ⟨true, "M", "verif-tunnel-01", "s3cretM", ""⟩ ts
   let rv := match w.mappings with | m :: _ => m.IsRevoked | [] => false
   s!"revoked {if rv then "1" else "0"} ack {ackStr ob.ack} att {attStr ob.att} data {if ob.data then "1" else "0"}"
 
 def parseRmwObs : List String → Option (Bool × Obs)
   | ["revoked", r, "ack", a, "att", t, "data", d] => do
-    let o ← parseObs ["ack", a, "acks", (if a == "none" then "0" else "1"), "att", t, "data", d, "ret", "-"]
+    let o ← parseObs ["ack", a, "acks", (if a == "none" then "0" else "1"), "att", t, "on", "-", "data", d, "ret", "-"]
     let r ← (if r == "1" then some true else if r == "0" then some false else none)
     pure (r, o)
   | _ => none
@@ -151,8 +151,8 @@ def runModel (ts : List String) : String :=
   match parseCase ts with
   | some c =>
     let o := openTunnelDyn c.w c.id c.req c.ts c.late
-    let ob := o.obsDyn c.ts c.late
-    s!"ack {ackStr ob.ack} acks {ob.acks} att {attStr ob.att} data {if ob.data then "1" else "0"} ret {retStr o.ret}"
+    let ob := o.obsDyn c.req c.ts c.late
+    s!"ack {ackStr ob.ack} acks {ob.acks} att {attStr ob.att} on {if ob.on == "" then "-" else ob.on} data {if ob.data then "1" else "0"} ret {retStr o.ret}"
   | none => "bad-case"
 
 def runHolds (caseToks obsToks : List String) : String :=
